@@ -995,6 +995,13 @@ func init() {
 		checkScan(r, prog, a, "c06")
 		checkWithLocalVariable(r, prog, "c06")
 		checkQuantifierAbsent(r, prog, a, "c06")
+		if g := loadGrammars(r, prog); g != nil {
+			r.importing = "C01"
+			checkBindingModes(r, prog, NewGA(prog, g.Tab), "c01") // the fold assumes each form sets exactly its names: `_` binds nothing
+		}
+		r.importing = "C18"
+		checkGetOpts(r, prog, a, "c18") // an evaluation starts without bindings, on a list of its own
+		r.importing = ""
 		r.Technique = "abstract execution of the collection evaluator over {any,all}×{body true/false/error} with three loop visits; symbolic append-chain analysis of the per-iteration option slice and alias paths against the statement's binding table; SSA loop-shape checks for the element loop and the local-variable scan"
 		r.Explain = "Decides: the element loop is the canonical ascending loop over 0..Len()-1; every iteration evaluates the body exactly once against the root datum, through the dispatcher; the first decisive element or first error ends the fold with the documented pair, exhaustion/emptiness gives all=true/any=false, absence likewise; the options handed to the body are a fresh copy of the incoming ones followed by the new bindings; each binding follows the statement's table (list: default/value alias, index concrete; map: default/index concrete key, value alias) and is made exactly when its name is set; alias paths are freshly made: collection path + index in base 10 / key; non-lists and non-string-keyed maps are rejected before any evaluation; the lookup scans bindings innermost-first, compares the first part of the path as rewritten so far, expands aliases into a new slice, and treats sub-selection of a key/index binding as an error; WithLocalVariable only pushes. NOT decided: equivalence with the unrolled expression on values; map visit order (C14)."
 		r.Assume = append(r.Assume, "body outcomes abstracted to true/false/error, the same for every iteration of one run")
